@@ -420,12 +420,11 @@ def gen_case(rng: random.Random, tier: str):
     mappable = None
     if rng.random() < 0.25:
         ids = list(base["register"]["ids"])
-        extra = [f"x{j}" for j in range(rng.choice([0, 0, 1, 2]))]
+        extra = [f"x{j}" for j in range(rng.choice([0, 1, 1, 2, 2]))]
         declared = ids + extra
         ntraps = 2 * len(declared) + rng.choice([0, 1, 3])
         traps = [[10.0 * (j % 4), 10.0 * (j // 4)] for j in range(ntraps)]
-        mappable = dict(traps=traps, declared=declared)
-        base["ops"] = [o for o in base["ops"] if o["op"] not in ("config_detmap", "add_dmm")]
+        mappable = dict(traps=traps, declared=declared, n_base=len(ids))
         # a negative index counts from the end of the DECLARED ids in a template
         # with a mappable register and from the end of the chosen ids in a
         # concrete one: not comparable, so indices are made non-negative here
@@ -435,7 +434,8 @@ def gen_case(rng: random.Random, tier: str):
                 o["qubits"] = [j % nb if -nb <= j < 0 else j for j in o["qubits"]]
             if o["op"] == "phase_shift_index":
                 o["targets"] = [j % nb if -nb <= j < 0 else j for j in o.get("targets", [])]
-        base["maps"] = []
+        # detuning maps live on the first traps of the layout
+        base["maps"] = [m[: len(ids)] for m in base.get("maps", [])]
         base["register"] = dict(ids=declared, coords=[[10.0 * j, 0.0] for j in range(len(declared))])
     prob = rng.choice([0.0, 0.25, 0.5, 0.5, 0.8])
     hb, ops, nested = parametrize(rng, base, prob)
@@ -458,7 +458,13 @@ def gen_case(rng: random.Random, tier: str):
             dec = mappable["declared"]
             nbase = len(dec)
             r = rng.random()
-            n = nbase if r < 0.6 else rng.randint(1, nbase)
+            nb0 = mappable["n_base"]
+            if r < 0.4 or nb0 == nbase:
+                n = nbase if r < 0.75 else rng.randint(1, nbase)
+            elif r < 0.85:
+                n = rng.randint(nb0, nbase - 1)  # a strict subset that covers the ids in use
+            else:
+                n = rng.randint(1, nbase)
             chosen = dec[:n]
             if rng.random() < 0.08:
                 chosen = rng.sample(dec, n)  # maybe not a prefix
@@ -478,7 +484,40 @@ def gen_case(rng: random.Random, tier: str):
         elif rng.random() < 0.02:
             q = [[base["register"]["ids"][0], 0]]
         builds.append(dict(env=env_list(rng, env, rng.random() < 0.3), qubits=q, mode=m))
+    # continued use of the template after its builds
+    ext_ops, ext_build = [], None
+    if rng.random() < 0.6:
+        decl = {}
+        for o in ops:
+            if o["op"] == "declare":
+                spec = next((c for c in base["device"]["channels"] if c["id"] == o["channel_id"]), None)
+                if spec is not None:
+                    decl[o["name"]] = spec
+        allq = list(base["register"]["ids"])
+        for _ in range(rng.randint(1, 4)):
+            if not decl:
+                break
+            name = rng.choice(list(decl))
+            spec = decl[name]
+            basis = {"Rydberg": "ground-rydberg", "Raman": "digital", "Microwave": "XY"}[spec["kind"]]
+            r = rng.random()
+            if r < 0.4 and spec["addressing"] == "Local":
+                ext_ops.append(dict(op="target", qubits=[rng.choice(allq)], channel=name))
+            elif r < 0.75:
+                k = rng.randint(1, len(allq))
+                ext_ops.append(dict(op="phase_shift", phi=rng.choice([0.5, 1.0, -0.75]),
+                                    targets=rng.sample(allq, k), basis=basis))
+            elif r < 0.85 and spec["addressing"] == "Local":
+                ext_ops.append(dict(op="target_index", qubits=[rng.randrange(len(allq))], channel=name))
+            else:
+                ext_ops.append(dict(op="delay", duration=rng.choice([16, 40, 100]), channel=name, at_rest=False))
+        q = None
+        if mappable:
+            dec = mappable["declared"]
+            q = [[qid, t] for qid, t in zip(dec, rng.sample(range(len(mappable["traps"])), len(dec)))]
+        ext_build = dict(env=env_list(rng, env0, False), qubits=q)
     return dict(
+        ext_ops=ext_ops, ext_build=ext_build,
         device=base["device"], register=base["register"], maps=base.get("maps", []),
         mappable=mappable, vars=hb.vars, heap=hb.heap, ops=ops, builds=builds,
         nested=nested,
